@@ -2,6 +2,8 @@
 import csv
 import io
 import os
+import shutil
+import tempfile
 
 from hypothesis import strategies as st
 
@@ -67,7 +69,7 @@ def cases(draw):
             victim = draw(st.integers(fmt.get("header", 0), len(rows))) if len(rows) > fmt.get("header", 0) else None
             if victim is not None and victim < len(rows):
                 rows[victim] = rows[victim] + ["x"] if draw(st.booleans()) or len(rows[victim]) < 2 else rows[victim][:-1]
-    return {"spec": spec, "rows": rows}
+    return {"spec": spec, "rows": rows, "target": draw(st.sampled_from(["stream", "stream", "path"]))}
 
 
 def _render(spec, accepted):
@@ -111,9 +113,43 @@ def check_case(sub, case):
     except Exception as error:
         sub.fail("C14|cid-load|%s|%s" % (type(error).__name__, norm_message(error)), case, repr(error))
         return
-    target = io.StringIO(newline="")
+    if case.get("target") == "path":
+        target = _FileTarget()
+    else:
+        target = io.StringIO(newline="")
     try:
-        writer = cutplace.Writer(cid, target)
+        return _check_with_target(sub, case, cid, target)
+    finally:
+        if isinstance(target, _FileTarget):
+            target.remove()
+
+
+class _FileTarget(object):
+    """The writer is given the path of a file; what it holds is judged once the writer has been closed."""
+
+    def __init__(self):
+        self.folder = tempfile.mkdtemp(prefix="c14-")
+        self.path = os.path.join(self.folder, "written.txt")
+        self.closed = False
+
+    def getvalue(self):
+        if not self.closed:
+            return None
+        with open(self.path, "r", encoding="utf-8", newline="") as f:
+            return f.read()
+
+    def remove(self):
+        shutil.rmtree(self.folder, ignore_errors=True)
+
+
+def _check_with_target(sub, case, cid, target):
+    spec, rows = case["spec"], case["rows"]
+    fmt = spec["fmt"]
+    fixed = fmt["format"] == "fixed"
+    label = fmt["kind"]
+    header = fmt.get("header", 0)
+    try:
+        writer = cutplace.Writer(cid, target.path if isinstance(target, _FileTarget) else target)
     except Exception as error:
         sub.fail("C14|writer-construct|%s|%s" % (label, type(error).__name__), case, repr(error))
         return
@@ -172,12 +208,14 @@ def check_case(sub, case):
             if type(outcome).__name__ != expectation[1]:
                 sub.fail("C14|error-class|%s|expected-%s|got-%s" % (label, expectation[1], type(outcome).__name__), case,
                          "write_row(%r): %r" % (row, outcome))
-            if target.getvalue() != before:
+            if before is not None and target.getvalue() != before:
                 sub.fail("C14|rejected-row-left-output|%s" % label, case,
                          "rejected row %r changed the stream from %r to %r" % (row, before, target.getvalue()))
                 return
         # stream content after every step
         content = target.getvalue()
+        if content is None:
+            continue
         if fixed:
             wanted = _render(spec, accepted)
             if content != wanted:
@@ -213,6 +251,25 @@ def check_case(sub, case):
             sub.fail("C14|close|missing-check-error|%s" % label, case, "check %r must fail at close()" % (end[1],))
         elif not isinstance(close_error, errors.CheckError):
             sub.fail("C14|close|%s-instead-of-CheckError|%s" % (type(close_error).__name__, label), case, repr(close_error))
+    # a file the writer opened itself: judged now that the writer has been closed
+    if isinstance(target, _FileTarget):
+        target.closed = True
+        content = target.getvalue()
+        if fixed:
+            if content != _render(spec, accepted):
+                sub.fail("C14|stream-content|%s|%s|path" % (label, fmt.get("line_delimiter")), case,
+                         "the file written holds %r, expected %r" % (content, _render(spec, accepted)))
+                return
+        else:
+            try:
+                parsed = _parse_delimited(content, fmt)
+            except csv.Error as error:
+                sub.fail("C14|stream-unparsable|%s|path" % label, case, "file %r: %s" % (content, error))
+                return
+            if parsed != accepted:
+                sub.fail("C14|stream-content|%s|path" % label, case,
+                         "the file written parses to %r, expected %r" % (parsed, accepted))
+                return
     # read back under a fresh CID
     output = target.getvalue()
     fresh = c04.load(spec)
@@ -249,7 +306,8 @@ def check_case(sub, case):
             seen_reject = True
         elif v == "accept" and seen_reject:
             nontrivial = True
-    classes = ["format:" + label, "header:%d" % header] + ["step:" + v for v in verdicts]
+    classes = ["format:" + label, "header:%d" % header, "target:" + case.get("target", "stream")] + [
+        "step:" + v for v in verdicts]
     if fixed:
         classes.append("line-delimiter:%s" % fmt.get("line_delimiter"))
     if end not in ("ok", "neutral"):
